@@ -36,7 +36,7 @@ pub(crate) enum AnalysisProgress {
     Highlighting { path: PathBuf },
 }
 
-#[derive(Default)]
+#[derive(Clone, Default)]
 pub(crate) enum AnalysisProgressReporter {
     #[default]
     Silent,
